@@ -3,6 +3,7 @@ package main
 import (
 	"fmt"
 	"go/ast"
+	"go/constant"
 	"go/token"
 	"go/types"
 	"strings"
@@ -196,12 +197,9 @@ func rulePrintableInterval(c *Ctx, rule string) {
 		c.unresolvedRoot("internal/utf7")
 		return
 	}
-	lo, _ := pk.Types.Scope().Lookup("min").(*types.Const)
-	hi, _ := pk.Types.Scope().Lookup("max").(*types.Const)
-	if lo == nil || hi == nil {
-		c.unresolvedRoot("utf7.min / utf7.max")
-		return
-	}
+	// the interval ends are identified by value (RFC 3501 5.1.3: printable
+	// US-ASCII 0x20-0x7e), not by the constants' names
+	const loVal, hiVal = 0x20, 0x7E
 	for _, file := range pk.Syntax {
 		if strings.HasSuffix(p.Fset.Position(file.Pos()).Filename, "_test.go") {
 			continue
@@ -220,22 +218,26 @@ func rulePrintableInterval(c *Ctx, rule string) {
 				if !ok {
 					return true
 				}
-				which := func(e ast.Expr) *types.Const {
-					id, ok := ast.Unparen(e).(*ast.Ident)
-					if !ok {
-						return nil
+				which := func(e ast.Expr) string {
+					tv, ok := pk.TypesInfo.Types[e]
+					if !ok || tv.Value == nil {
+						return ""
 					}
-					k, _ := pk.TypesInfo.Uses[id].(*types.Const)
-					if k == lo || k == hi {
-						return k
+					if v, ok := constant.Int64Val(constant.ToInt(tv.Value)); ok {
+						switch v {
+						case loVal:
+							return "min"
+						case hiVal:
+							return "max"
+						}
 					}
-					return nil
+					return ""
 				}
 				op := be.Op
 				k := which(be.Y)
 				other := be.X
-				if k == nil {
-					if k = which(be.X); k == nil {
+				if k == "" {
+					if k = which(be.X); k == "" {
 						return true
 					}
 					other = be.Y
@@ -246,9 +248,9 @@ func rulePrintableInterval(c *Ctx, rule string) {
 				default:
 					return true
 				}
-				key := fmt.Sprintf("%s: %s %s %s#%d", name, types.ExprString(other), op, k.Name(), countKey(c, rule, fmt.Sprintf("%s: %s %s %s#", name, types.ExprString(other), op, k.Name()))+1)
-				good := (k == lo && (op == token.LSS || op == token.GEQ)) || (k == hi && (op == token.GTR || op == token.LEQ))
-				c.check(good, rule, key, be.Pos(), "closed interval end", fmt.Sprintf("this comparison treats %s as excluded from the self-representing interval while the sibling predicates include it: encoder and decoder disagree on one boundary code point (e.g. U+0020 hidden in base64 is accepted)", k.Name()))
+				key := fmt.Sprintf("%s: %s %s %s#%d", name, types.ExprString(other), op, k, countKey(c, rule, fmt.Sprintf("%s: %s %s %s#", name, types.ExprString(other), op, k))+1)
+				good := (k == "min" && (op == token.LSS || op == token.GEQ)) || (k == "max" && (op == token.GTR || op == token.LEQ))
+				c.check(good, rule, key, be.Pos(), "closed interval end", fmt.Sprintf("this comparison treats %s as excluded from the self-representing interval while the sibling predicates include it: encoder and decoder disagree on one boundary code point (e.g. U+0020 hidden in base64 is accepted)", k))
 				return true
 			})
 		}
